@@ -412,7 +412,8 @@ def eig(data, meta=None, sizes=(1, 1), **kwargs):
             except (scipy.linalg.LinAlgError, np.linalg.LinAlgError) as e:
                 raise ValueError("Biorthonormalization of left/right eigenvector pairs failed.") from e
 
-        if any( np.abs(np.sum(_V.T * _U, axis=0) - 1) > tol ):
+        VU = _V.T * _U  # rounding of the overlap scales with the magnitude of the summed terms
+        if any( np.abs(np.sum(VU, axis=0) - 1) > tol * np.sum(np.abs(VU), axis=0) ):
             raise ValueError("Biorthonormalization of left/right eigenvector pairs failed.")
 
         s_order= eigs_which(S, which=kwargs.get('which', 'LM'))
